@@ -113,6 +113,12 @@ def r3(ctx, lib):
         for a in anys:
             if cr and op_local(a.args[1]) in forward_locals(b, cr[2]['p'][0]):
                 clos[a.bb] = lib.body(cp)
+    from ..analysis import callable_body
+    for a in anys:
+        if a.bb not in clos:
+            fb = callable_body(lib, b, a.args[1])       # `.any(is_special)`: a named function instead of a closure
+            if fb is not None:
+                clos[a.bb] = fb
     anys.sort(key=lambda c: c.line)
     first = clos.get(sorted(anys, key=lambda c: len(b.dominators()[c.bb]))[0].bb)
     order = sorted(anys, key=lambda c: len(b.dominators()[c.bb]))
